@@ -139,7 +139,9 @@ func runC11(cs c11case, rngSeed int64, e common.Env, scale int) c11out {
 			} else {
 				quiet = 0
 			}
-			if quiet > 12 {
+			// a fault-free reference run is never cut short: on a loaded machine "nothing queued, nothing being delivered" for a
+			// few milliseconds may just mean that a party has not been scheduled yet
+			if quiet > 12 && !(cs.Mute == 0 && cs.Withhold < 0) {
 				break
 			}
 			time.Sleep(250 * time.Microsecond)
